@@ -132,6 +132,14 @@ def suite_gen(which: set[str]):
                 d.cmd("GENEXP tab=" + (";".join(f"{k}={v}" for k, v in exp_tab.items()) or "-"))
             model = d.cmd("GEN " + fn + " " + " ".join(pv(a) if not isinstance(a, str) or not a.startswith("@") else a[1:] for a in args))
             impl = show_real(real)
+            # an exception is compared by its kind alone: Python's ZeroDivisionError is the model's `div0`, and a list-valued
+            # generated function that has no statement-level propagation carries the error inside its list
+            if impl == "err:ZeroDivisionError":
+                impl = "err:div0"
+            if impl.startswith("err:") and " " in model:
+                errs = [t_ for t_ in model.split(" ") if t_.startswith("err:")]
+                if errs:
+                    model = errs[0]
             res.evaluations += 1
             cnt[fn] = cnt.get(fn, 0) + 1
             if impl not in ("err:div0",) and not impl.startswith("f:") and not impl.startswith("err"):
@@ -421,8 +429,8 @@ def suite_gen(which: set[str]):
                         keep.append(sc)
                         before = state_of()
                         node.append_subcluster(sc)
-                        compare("_BFNode_append_subcluster", [before[0], before[1], handle(sc), token(sc.packed_centroid)], state_of())
-                        compare("_BFNode_packed_centroids", list(state_of()), [token(r) for r in node.packed_centroids])
+                        compare("_BFNode_append_subcluster", [before[0], before[1], [], handle(sc), token(sc.packed_centroid)], state_of() + ([],))
+                        compare("_BFNode_packed_centroids", list(state_of()) + [[]], [token(r) for r in node.packed_centroids])
                     if k0 >= 1:
                         victim = rng.choice(node._subclusters) if rng.random() < 0.9 else mk_sub()
                         n1, n2 = mk_sub(), mk_sub()
@@ -433,7 +441,7 @@ def suite_gen(which: set[str]):
                             real = state_of()
                         except ValueError:
                             real = "ERR:ValueError"
-                        args = [before[0], before[1], handle(victim), handle(n1), handle(n2), token(n1.packed_centroid), token(n2.packed_centroid)]
+                        args = [before[0], before[1], [], handle(victim), handle(n1), handle(n2), token(n1.packed_centroid), token(n2.packed_centroid)]
                         if real == "ERR:ValueError":
                             m = d.cmd("GEN _BFNode_update_split_subclusters " + " ".join(pv(a) for a in args))
                             res.evaluations += 1
@@ -441,7 +449,7 @@ def suite_gen(which: set[str]):
                             if "err:ValueError" not in m and res.disagreement is None:
                                 res.disagreement = {"what": "update_split_subclusters of an absent entry", "model": m[:200], "impl": "ValueError"}
                         else:
-                            compare("_BFNode_update_split_subclusters", args, real)
+                            compare("_BFNode_update_split_subclusters", args, real + ([],))
                             # alignment: the valid rows are the centroids of the entries
                             if any(bytes(r.tobytes()) != bytes(x.packed_centroid.tobytes()) for r, x in zip(node.packed_centroids, node._subclusters)) \
                                     and res.disagreement is None:
@@ -544,6 +552,8 @@ def suite_gen(which: set[str]):
                         mx = rng.choice([None, None, 1, 2, 7, 1000, rng.randint(1, 10 ** 6)])
                         if rng.random() < 0.03:
                             pr = 0
+                        if _ == 0:
+                            pr, mx = 0, None          # forced: ZeroDivisionError
                         compare("parse_num_per_batch", [tot, pr, mx], call_real(fn_, tot, pr, mx))
             if "ranges" in which:
                 # multiround._get_files_range_tuples on real .npy files (row counts incl. 0, 1-12 files, packed or not): labels, handles
@@ -635,6 +645,138 @@ def suite_gen(which: set[str]):
                             res.disagreement = {"what": "a complete peak file does not read back as the value written", "model": repr(x), "impl": repr(val)}
                 finally:
                     _shutil.rmtree(base, ignore_errors=True)
+            if "insert" in which:
+                # the insertion step on nodes of real trees: the real `_BFNode.insert_bf_subcluster` of ONE node, with what it asks
+                # of other objects recorded at depth 0 (np.argmax, merge_subcluster, the recursive call, _split_node, update)
+                import bblean as BBL
+                import bblean.bitbirch as BBm
+                orig_insert = BBm._BFNode.insert_bf_subcluster
+                orig_merge = BBm._BFSubcluster.merge_subcluster
+                orig_update = BBm._BFSubcluster.update
+                orig_split = BBm._split_node
+                real_np = BBm.np
+                for _ in range(max(40, N // 2)):
+                    bf = rng.choice([2, 3, 4])
+                    nf = rng.choice([16, 24, 40])
+                    est = BBL.BitBirch(threshold=rng.choice([0.5, 0.7, 0.9]), branching_factor=bf, merge_criterion=rng.choice(["diameter", "radius"]))
+                    protos = [[rng.random() < 0.5 for _ in range(nf)] for _ in range(rng.randint(2, 10))]
+                    rows = np.asarray([[b ^ (rng.random() < 0.08) for b in rng.choice(protos)] for _ in range(rng.choice([0, 1, 3, 12, 30, 60, 60, 90]))],
+                                      dtype=np.uint8).reshape(-1, nf)
+                    if len(rows):
+                        est.fit(rows, input_is_packed=False)
+                    # choose a node: the root, a random node below it, or a fresh empty node
+                    nodes = []
+                    if len(rows):
+                        stack = [est._root]
+                        while stack:
+                            nd = stack.pop()
+                            nodes.append(nd)
+                            stack.extend(x.child for x in nd._subclusters if x.child is not None)
+                    node = (est._root if rng.random() < 0.5 else rng.choice(nodes)) if nodes and rng.random() < 0.93 else BBm._BFNode(bf, nf)
+                    row = np.asarray([b ^ (rng.random() < 0.1) for b in rng.choice(protos)] if rng.random() < 0.55
+                                     else [rng.random() < 0.5 for _ in range(nf)], dtype=np.uint8)
+                    sc = BBm._BFSubcluster(linear_sum=row, mol_indices=[10 ** 6])
+                    hid: dict = {}
+                    tokens: dict = {}
+                    keep: list = [sc]
+
+                    def handle(o):
+                        keep.append(o)
+                        return hid.setdefault(id(o), len(hid) + 1)
+
+                    def token(r_):
+                        return tokens.setdefault(bytes(np.asarray(r_, dtype=np.uint8).tobytes()), len(tokens) + 1)
+                    before = ([handle(x) for x in node._subclusters], [token(r_) for r_ in node._packed_centroids_buf])
+                    sc_tok = token(sc.packed_centroid)
+                    depth = {"d": 0}
+                    rec = {"log": [], "idx": None, "merge": None, "child": None, "split": None}
+
+                    class NpP:
+                        def __getattr__(self, k):
+                            return getattr(real_np, k)
+
+                        @staticmethod
+                        def argmax(a_, *aa, **kk):
+                            r_ = real_np.argmax(a_, *aa, **kk)
+                            if depth["d"] == 0 and rec["idx"] is None:
+                                rec["idx"] = int(r_)
+                            return r_
+
+                    def w_merge(self_, nominee, thr_, fn_):
+                        r_ = orig_merge(self_, nominee, thr_, fn_)
+                        if depth["d"] == 0:
+                            rec["log"] += [1, handle(self_), handle(nominee)]
+                            rec["merge"] = bool(r_)
+                        return r_
+
+                    def w_update(self_, other):
+                        if depth["d"] == 0:
+                            rec["log"] += [4, handle(self_), handle(other)]
+                        return orig_update(self_, other)
+
+                    def w_insert(self_, sub_, fn_, thr_):
+                        top = depth["d"] == 0
+                        if top:
+                            rec["log"] += [2, handle(self_), handle(sub_)]
+                        depth["d"] += 1
+                        try:
+                            r_ = orig_insert(self_, sub_, fn_, thr_)
+                        finally:
+                            depth["d"] -= 1
+                        if top:
+                            rec["child"] = bool(r_)
+                        return r_
+
+                    def w_split(nd_):
+                        top = depth["d"] == 0
+                        depth["d"] += 1
+                        try:
+                            r_ = orig_split(nd_)
+                        finally:
+                            depth["d"] -= 1
+                        if top:
+                            rec["log"] += [3, handle(nd_)]
+                            rec["split"] = r_
+                        return r_
+                    BBm.np = NpP()
+                    BBm._BFSubcluster.merge_subcluster, BBm._BFSubcluster.update = w_merge, w_update
+                    BBm._BFNode.insert_bf_subcluster, BBm._split_node = w_insert, w_split
+                    try:
+                        ret = orig_insert(node, sc, est._merge_accept_fn, est.threshold)
+                    finally:
+                        BBm.np = real_np
+                        BBm._BFSubcluster.merge_subcluster, BBm._BFSubcluster.update = orig_merge, orig_update
+                        BBm._BFNode.insert_bf_subcluster, BBm._split_node = orig_insert, orig_split
+                    idx = rec["idx"] if rec["idx"] is not None else 0
+                    closest = None
+                    if before[0]:
+                        closest = next(o for o in keep if id(o) in hid and hid[id(o)] == before[0][idx])
+                    child_tok = None
+                    if closest is not None and rec["child"] is not None:
+                        child_tok = rec["log"][1]
+                    n1 = n2 = None
+                    if rec["split"] is not None:
+                        n1, n2 = rec["split"]
+                    after = ([handle(x) for x in node._subclusters], [token(r_) for r_ in node._packed_centroids_buf])
+                    sym = {
+                        "_subclusters_at_closest_idx_packed_centroid": token(node._subclusters[idx].packed_centroid) if node._subclusters and idx < len(node._subclusters) else None,
+                        "child_must_be_split": rec["child"],
+                        "closest_idx": idx,
+                        "closest_subcluster_child": child_tok,
+                        "closest_subcluster_packed_centroid": token(closest.packed_centroid) if closest is not None else None,
+                        "merge_was_successful": rec["merge"],
+                        "new_subcluster1": handle(n1) if n1 is not None else None,
+                        "new_subcluster1_packed_centroid": token(n1.packed_centroid) if n1 is not None else None,
+                        "new_subcluster2": handle(n2) if n2 is not None else None,
+                        "new_subcluster2_packed_centroid": token(n2.packed_centroid) if n2 is not None else None,
+                        "sim_matrix": None,
+                        "subcluster_packed_centroid": sc_tok,
+                    }
+                    args = [before[0], before[1], [], handle(sc), None, None] + [sym[k] for k in sorted(sym)]
+                    case_ = "empty" if not before[0] else ("leaf-merge" if rec["merge"] else "leaf-append" if rec["merge"] is False
+                                                         else "inner-split" if rec["child"] else "inner-update")
+                    cnt["insert:" + case_] = cnt.get("insert:" + case_, 0) + 1
+                    compare("_BFNode_insert_bf_subcluster", args, (bool(ret), after[0], after[1], rec["log"]))
             if "monitor" in which:
                 # the daemon's loop, run for real (real files) with a scripted process tree, clock and sleep; every iteration's
                 # file effects, recorded at the module's own `open` / `os` / `time` names, against the generated loop body
